@@ -399,8 +399,55 @@ Proof.
   destruct (sealed && negb bypass); [discriminate|].
   destruct (negb bypass && (a_generated d || a_constant d)); [discriminate|].
   destruct (is_none v).
-  - destruct (a_required d); [discriminate|]. intros H. inversion H. left. auto.
-  - intros H. right. eapply validate_sound. exact H.
+  - destruct (a_required d); [discriminate|].
+    destruct (negb false && negb bypass && negb (a_optional d)); [discriminate|].
+    intros H. inversion H. left. auto.
+  - unfold arg_validate_gen. intros H. right.
+    destruct (validate_gen false cl (a_ty d) v) as [x|] eqn:E; [|discriminate].
+    destruct (check_ok (a_checker d) x); [|discriminate]. inversion H; subst.
+    eapply validate_sound. exact E.
+Qed.
+
+(* Argument.validate: what a parameter with a checker stores is the COERCED value
+   (never the caller's raw value), and the checker has accepted that coerced value   *)
+Theorem arg_validate_coerced : forall cl d v v',
+  arg_validate cl d v = Ok v' ->
+  validate cl (a_ty d) v = Ok v' /\ check_ok (a_checker d) v' = true /\ has_type cl v' (a_ty d).
+Proof.
+  intros cl d v v'. unfold arg_validate, arg_validate_gen, validate.
+  destruct (validate_gen false cl (a_ty d) v) as [x|] eqn:E; [|discriminate].
+  destruct (check_ok (a_checker d) x) eqn:C; [|discriminate]. intros H. inversion H; subst.
+  split; [reflexivity|]. split; [exact C|]. eapply validate_sound. exact E.
+Qed.
+
+Theorem arg_validate_accepts : forall cl d v v',
+  coerced cl (a_ty d) v v' -> check_ok (a_checker d) v' = true -> arg_validate cl d v = Ok v'.
+Proof.
+  intros cl d v v' Hc Hk. unfold arg_validate, arg_validate_gen.
+  pose proof (validate_coerces cl (a_ty d) v v' Hc) as E. unfold validate in E. rewrite E, Hk. reflexivity.
+Qed.
+
+Theorem arg_validate_checker_refuses : forall cl d v v',
+  validate cl (a_ty d) v = Ok v' -> check_ok (a_checker d) v' = false -> arg_validate cl d v = Err.
+Proof.
+  intros cl d v v' E Hk. unfold arg_validate, arg_validate_gen. unfold validate in E. rewrite E, Hk. reflexivity.
+Qed.
+
+(* what an assignment (not the library's own bypass) stores: None only for a parameter
+   declared Optional; anything else is the coerced value and passed the checker       *)
+Theorem assign_stored : forall cl d sealed v v',
+  assign cl d sealed false v = Ok v' ->
+  (v = VNone /\ v' = VNone /\ a_optional d = true /\ a_required d = false) \/
+  (v <> VNone /\ validate cl (a_ty d) v = Ok v' /\ check_ok (a_checker d) v' = true).
+Proof.
+  intros cl d sealed v v'. unfold assign, assign_gen.
+  destruct (sealed && negb false); [discriminate|].
+  destruct (negb false && (a_generated d || a_constant d)); [discriminate|].
+  destruct (is_none v) eqn:E.
+  - apply is_none_true in E. subst v. destruct (a_required d); [discriminate|].
+    destruct (a_optional d); simpl; [|discriminate]. intros H. inversion H. left. auto.
+  - intros H. right. split; [intros ->; discriminate|].
+    destruct (arg_validate_coerced cl d v v' H) as [A [B _]]. auto.
 Qed.
 
 Lemma get_set_same : forall fs k v, get_field (set_field fs k v) k = Some v.
@@ -446,17 +493,18 @@ Qed.
 Theorem readback : forall cl n k d v,
   nth_error (class_args cl (n_cls n)) k = Some d ->
   n_sealed n = false -> a_generated d = false -> a_constant d = false ->
-  arg_has_type cl d v ->
+  (v = VNone /\ a_required d = false /\ a_optional d = true) \/
+  (has_type cl v (a_ty d) /\ check_ok (a_checker d) v = true) ->
   exists n', cfg_set cl n k v = (n', Stored) /\ cfg_get n' k = Some v.
 Proof.
   intros cl n k d v Hd Hs Hg Hc Ht. unfold cfg_set. rewrite Hd.
   assert (Ea : assign cl d (n_sealed n) false v = Ok v).
   { unfold assign, assign_gen. rewrite Hs, Hg, Hc. simpl.
-    destruct Ht as [[-> Hr]|Ht].
-    - simpl. rewrite Hr. reflexivity.
+    destruct Ht as [[-> [Hr Ho]]|[Ht Hk]].
+    - simpl. rewrite Hr, Ho. reflexivity.
     - destruct (is_none v) eqn:E.
       + apply is_none_true in E. subst. exfalso. eapply has_type_not_none; eauto.
-      + apply validate_conforming_gen. exact Ht. }
+      + unfold arg_validate_gen. rewrite (validate_conforming_gen false cl (a_ty d) v Ht), Hk. reflexivity. }
   rewrite Ea. eexists. split; [reflexivity|]. unfold cfg_get. simpl. apply get_set_same.
 Qed.
 
@@ -861,17 +909,17 @@ Qed.
 Definition ex_classes : classes :=
   [ (* 0: Leaf  v: Param[int]; m: Meta[int] *)
     {| c_parents := []; c_task := false;
-       c_args := [ {| a_ty := TInt; a_required := true; a_generated := false; a_constant := false |};
-                   {| a_ty := TInt; a_required := true; a_generated := false; a_constant := false |} ] |};
+       c_args := [ {| a_ty := TInt; a_required := true; a_generated := false; a_constant := false; a_optional := false; a_checker := None |};
+                   {| a_ty := TInt; a_required := true; a_generated := false; a_constant := false; a_optional := false; a_checker := None |} ] |};
     (* 1: Node  leaves: Param[List[Leaf]] *)
     {| c_parents := []; c_task := false;
-       c_args := [ {| a_ty := TList (TObj 0); a_required := true; a_generated := false; a_constant := false |} ] |};
+       c_args := [ {| a_ty := TList (TObj 0); a_required := true; a_generated := false; a_constant := false; a_optional := false; a_checker := None |} ] |};
     (* 2: TT(Task)  n: Param[Node] *)
     {| c_parents := []; c_task := true;
-       c_args := [ {| a_ty := TObj 1; a_required := true; a_generated := false; a_constant := false |} ] |};
+       c_args := [ {| a_ty := TObj 1; a_required := true; a_generated := false; a_constant := false; a_optional := false; a_checker := None |} ] |};
     (* 3: TL(Task)  l: Param[Leaf] *)
     {| c_parents := []; c_task := true;
-       c_args := [ {| a_ty := TObj 0; a_required := true; a_generated := false; a_constant := false |} ] |} ].
+       c_args := [ {| a_ty := TObj 0; a_required := true; a_generated := false; a_constant := false; a_optional := false; a_checker := None |} ] |} ].
 
 Definition mk (c : nat) (fs : list (nat * value)) : node :=
   {| n_cls := c; n_fields := fs; n_pre := []; n_init := []; n_sealed := false |}.
@@ -889,14 +937,14 @@ Proof.
   exists ex_classes, ex_heap_list, 0%nat, 2%nat. split; [|split].
   - eapply reach_step; [eapply reach_step; [apply reach_refl|]|].
     + exists (mk 2 [(0%nat, VObj 1 1 false)]). split; [reflexivity|]. left.
-      exists 0%nat, {| a_ty := TObj 1; a_required := true; a_generated := false; a_constant := false |}, (VObj 1 1 false).
+      exists 0%nat, {| a_ty := TObj 1; a_required := true; a_generated := false; a_constant := false; a_optional := false; a_checker := None |}, (VObj 1 1 false).
       split; [reflexivity|]. split; [reflexivity|]. simpl. auto.
     + exists (mk 1 [(0%nat, VList [VObj 2 0 false])]). split; [reflexivity|]. left.
-      exists 0%nat, {| a_ty := TList (TObj 0); a_required := true; a_generated := false; a_constant := false |},
+      exists 0%nat, {| a_ty := TList (TObj 0); a_required := true; a_generated := false; a_constant := false; a_optional := false; a_checker := None |},
              (VList [VObj 2 0 false]).
       split; [reflexivity|]. split; [reflexivity|]. simpl. auto.
   - exists (mk 0 [(0%nat, VInt 2)]), 1%nat,
-           {| a_ty := TInt; a_required := true; a_generated := false; a_constant := false |}.
+           {| a_ty := TInt; a_required := true; a_generated := false; a_constant := false; a_optional := false; a_checker := None |}.
     split; [reflexivity|]. split; [reflexivity|]. split; [reflexivity|]. split; [reflexivity|]. left. reflexivity.
   - vm_compute. reflexivity.
 Qed.
@@ -920,10 +968,10 @@ Proof.
   exists ex_classes, ex_heap_stale, 0%nat, 1%nat, 2%nat, ([2; 0]%nat, []). split; [|split; [|split]].
   - eapply reach_step; [apply reach_refl|].
     exists (mk 3 [(0%nat, VObj 2 0 false)]). split; [reflexivity|]. left.
-    exists 0%nat, {| a_ty := TObj 0; a_required := true; a_generated := false; a_constant := false |}, (VObj 2 0 false).
+    exists 0%nat, {| a_ty := TObj 0; a_required := true; a_generated := false; a_constant := false; a_optional := false; a_checker := None |}, (VObj 2 0 false).
     split; [reflexivity|]. split; [reflexivity|]. simpl. auto.
   - exists (mk 0 [(0%nat, VInt 1)]), 1%nat,
-           {| a_ty := TInt; a_required := true; a_generated := false; a_constant := false |}.
+           {| a_ty := TInt; a_required := true; a_generated := false; a_constant := false; a_optional := false; a_checker := None |}.
     split; [reflexivity|]. split; [reflexivity|]. split; [reflexivity|]. split; [reflexivity|]. left. reflexivity.
   - vm_compute. reflexivity.
   - vm_compute. reflexivity.
@@ -975,7 +1023,7 @@ Proof. split; reflexivity. Qed.
 (* readback / assign_stores_or_raises on a node of class with one Param[List[int]] *)
 Definition ex_cl2 : classes :=
   [ {| c_parents := []; c_task := false;
-       c_args := [ {| a_ty := TList TInt; a_required := true; a_generated := false; a_constant := false |} ] |} ].
+       c_args := [ {| a_ty := TList TInt; a_required := true; a_generated := false; a_constant := false; a_optional := false; a_checker := None |} ] |} ].
 Example assign_raises_ex :
   cfg_set ex_cl2 (mk 0 [(0%nat, VList [VInt 1])]) 0 (VList [VInt 2; VStr "x"]) = (mk 0 [(0%nat, VList [VInt 1])], Raised).
 Proof. reflexivity. Qed.
@@ -1119,7 +1167,7 @@ Proof.
 Qed.
 
 Lemma assign_bypass_not_none : forall cl d dv,
-  dv <> VNone -> assign cl d false true dv = validate cl (a_ty d) dv.
+  dv <> VNone -> assign cl d false true dv = arg_validate cl d dv.
 Proof.
   intros cl d dv Hn. unfold assign, assign_gen. simpl.
   destruct (is_none dv) eqn:E; [apply is_none_true in E; contradiction | reflexivity].
@@ -1131,15 +1179,15 @@ Qed.
 Theorem new_default_coerced : forall cl defs c n i d dv x,
   cfg_new cl defs c [] = Ok n ->
   nth_error (class_args cl c) i = Some d -> nth_error defs i = Some (Some dv) ->
-  dv <> VNone -> coerced cl (a_ty d) dv x ->
+  dv <> VNone -> coerced cl (a_ty d) dv x -> check_ok (a_checker d) x = true ->
   cfg_get n i = Some x.
 Proof.
-  intros cl defs c n i d dv x H Hd Hdv Hnn Hco. unfold cfg_new in H. simpl in H.
+  intros cl defs c n i d dv x H Hd Hdv Hnn Hco Hck. unfold cfg_new in H. simpl in H.
   destruct (init_fields cl (class_args cl c) defs 0 []) as [fs|] eqn:E; [|discriminate].
   inversion H; subst. unfold cfg_get. simpl.
   destruct (init_fields_get _ _ _ _ _ _ _ _ E Hd Hdv) as [y [Ha Hg]].
   rewrite assign_bypass_not_none in Ha by exact Hnn.
-  rewrite (validate_coerces _ _ _ _ Hco) in Ha. inversion Ha; subst. exact Hg.
+  rewrite (arg_validate_accepts _ _ _ _ Hco Hck) in Ha. inversion Ha; subst. exact Hg.
 Qed.
 
 (* ... and it is exactly what assigning the default would store: C().x and
@@ -1147,17 +1195,18 @@ Qed.
 Theorem new_default_as_assigned : forall cl defs c n i d dv n0,
   cfg_new cl defs c [] = Ok n ->
   nth_error (class_args cl c) i = Some d -> nth_error defs i = Some (Some dv) ->
-  a_generated d = false -> a_constant d = false ->
+  dv <> VNone -> a_generated d = false -> a_constant d = false ->
   n_cls n0 = c -> n_sealed n0 = false ->
   exists n1, cfg_set cl n0 i dv = (n1, Stored) /\ cfg_get n1 i = cfg_get n i.
 Proof.
-  intros cl defs c n i d dv n0 H Hd Hdv Hg Hc Hcls Hs. unfold cfg_new in H. simpl in H.
+  intros cl defs c n i d dv n0 H Hd Hdv Hnn Hg Hc Hcls Hs. unfold cfg_new in H. simpl in H.
   destruct (init_fields cl (class_args cl c) defs 0 []) as [fs|] eqn:E; [|discriminate].
   inversion H; subst n. clear H.
   destruct (init_fields_get _ _ _ _ _ _ _ _ E Hd Hdv) as [y [Ha Hgf]].
   unfold cfg_set. rewrite Hcls, Hd.
   assert (Ha' : assign cl d (n_sealed n0) false dv = Ok y).
-  { rewrite Hs. unfold assign, assign_gen in *. rewrite Hg, Hc. simpl in *. exact Ha. }
+  { rewrite Hs. unfold assign, assign_gen in *. rewrite Hg, Hc. simpl in *.
+    destruct (is_none dv) eqn:En; [apply is_none_true in En; contradiction | exact Ha]. }
   rewrite Ha'. eexists. split; [reflexivity|]. unfold cfg_get. simpl.
   rewrite get_set_same. symmetry. exact Hgf.
 Qed.
@@ -1192,6 +1241,22 @@ Proof.
   - rewrite nth_upd_other in Hj by exact Hne. eapply Hh; exact Hj.
 Qed.
 
+(* sealing changes the read-only flag only *)
+Lemma seal_from_nth : forall vis h i m n,
+  nth_error (seal_from i vis h) m = Some n ->
+  exists n0, nth_error h m = Some n0 /\ n_cls n = n_cls n0 /\ n_fields n = n_fields n0.
+Proof.
+  intros vis h. induction h as [|x r IH]; intros i m n H; destruct m; simpl in H; try discriminate.
+  - inversion H; subst. exists x. split; [reflexivity|]. destruct (mem i vis); simpl; auto.
+  - eapply IH. exact H.
+Qed.
+
+Lemma heap_typed_seal : forall cl vis h, heap_typed cl h -> heap_typed cl (seal_nodes vis h).
+Proof.
+  intros cl vis h Ht m n Hn. destruct (seal_from_nth _ _ _ _ _ Hn) as [n0 [Hn0 [Hc Hf]]].
+  intros i d v Hd Hv. unfold cfg_get in Hv. rewrite Hc in Hd. rewrite Hf in Hv. eapply (Ht _ _ Hn0); eauto.
+Qed.
+
 (* the states of a submit *)
 Lemma submit_trace_cases : forall rb cl s root init tr v,
   submit_trace rb cl s root init = (tr, v) ->
@@ -1199,7 +1264,8 @@ Lemma submit_trace_cases : forall rb cl s root init tr v,
   exists n, nth_error (s_heap s) root = Some n /\
     mem root (s_jobs s) || negb (class_task cl (n_cls n)) = false /\
     let s1 := begin_submit s root n init in
-    ((exists vis, cfg_validate cl (s_heap s1) root = Some (VOk vis) /\ tr = [s1; register s1 root] /\ v = Accepted) \/
+    ((exists vis, cfg_validate cl (s_heap s1) root = Some (VOk vis) /\
+                  tr = [s1; seal_session s1 vis; register (seal_session s1 vis) root] /\ v = Accepted) \/
      (exists vis, cfg_validate cl (s_heap s1) root = Some (VErr vis) /\ tr = [s1; if rb then s else s1] /\ v = Rejected) \/
      (cfg_validate cl (s_heap s1) root = None /\ tr = [s1] /\ v = OutOfFuel)).
 Proof.
@@ -1214,23 +1280,26 @@ Proof.
   - right. right. auto.
 Qed.
 
-(* in a history of assignments, submits and validations the parameters only ever
-   hold values of their declared types (whichever of the two submit behaviours)  *)
+(* in a history of assignments, submits, instantiations and validations the parameters
+   only ever hold values of their declared types (whichever of the two submit behaviours) *)
 Theorem sess_step_typed : forall rb cl s o s' r,
   sess_step_gen rb cl s o = (s', r) -> heap_typed cl (s_heap s) -> heap_typed cl (s_heap s').
 Proof.
-  intros rb cl s o s' r H Ht. destruct o as [root init|root|m k v]; simpl in H.
+  intros rb cl s o s' r H Ht. destruct o as [root init|root|m k v|root]; simpl in H.
   - destruct (submit_trace rb cl s root init) as [tr v] eqn:E. inversion H; subst. clear H.
     destruct (submit_trace_cases _ _ _ _ _ _ _ E) as [[-> _]|[n [En [_ C]]]]; [exact Ht|].
     assert (H1 : heap_typed cl (s_heap (begin_submit s root n init))).
     { simpl. apply heap_typed_upd; [exact Ht|]. intros i d v0 Hn Hv. eapply (Ht _ _ En); eauto. }
     simpl in C. destruct C as [[vis [_ [-> _]]]|[[vis [_ [-> _]]]|[_ [-> _]]]]; simpl; try exact H1.
-    destruct rb; [exact Ht | exact H1].
+    + apply heap_typed_seal. exact H1.
+    + destruct rb; [exact Ht | exact H1].
   - inversion H; subst. exact Ht.
   - destruct (nth_error (s_heap s) m) as [n|] eqn:En; [|inversion H; subst; exact Ht].
     destruct (cfg_set cl n k (stamp (s_jobs s) v)) as [n' o] eqn:Es.
     destruct o; inversion H; subst; try exact Ht. simpl.
     apply heap_typed_upd; [exact Ht|]. eapply set_preserves_typed; [exact Es | eapply Ht; exact En].
+  - destruct (cfg_validate cl (s_heap s) root) as [[vis|vis]|]; inversion H; subst; try exact Ht.
+    simpl. apply heap_typed_seal. exact Ht.
 Qed.
 
 Theorem sess_run_typed : forall cl ops s,
@@ -1241,26 +1310,28 @@ Proof.
 Qed.
 
 (* registration is a step of its own: in every state a submit goes through, the
-   registry is what it was, or it has gained the task - and that only in a state
-   whose validation has answered VOk                                            *)
+   registry is what it was, or it has gained the task - and that only after the
+   validation of the task (with its new init tasks) has answered VOk              *)
 Theorem registered_only_after_validation : forall rb cl s root init tr v,
   submit_trace rb cl s root init = (tr, v) ->
   Forall (fun s' => s_reg s' = s_reg s \/
                     (s_reg s' = s_reg s ++ [root] /\ v = Accepted /\
-                     exists vis, cfg_validate cl (s_heap s') root = Some (VOk vis))) tr.
+                     exists n vis, nth_error (s_heap s) root = Some n /\
+                       cfg_validate cl (s_heap (begin_submit s root n init)) root = Some (VOk vis))) tr.
 Proof.
   intros rb cl s root init tr v H.
-  destruct (submit_trace_cases _ _ _ _ _ _ _ H) as [[-> _]|[n [_ [_ C]]]]; [constructor|].
+  destruct (submit_trace_cases _ _ _ _ _ _ _ H) as [[-> _]|[n [En [_ C]]]]; [constructor|].
   simpl in C. destruct C as [[vis [Hv [-> ->]]]|[[vis [_ [-> ->]]]|[_ [-> ->]]]].
-  - constructor; [left; reflexivity|]. constructor; [|constructor].
-    right. split; [reflexivity|]. split; [reflexivity|]. exists vis. exact Hv.
+  - constructor; [left; reflexivity|]. constructor; [left; reflexivity|]. constructor; [|constructor].
+    right. split; [reflexivity|]. split; [reflexivity|]. exists n, vis. split; [exact En | exact Hv].
   - constructor; [left; reflexivity|]. constructor; [|constructor]. left. destruct rb; reflexivity.
   - constructor; [left; reflexivity | constructor].
 Qed.
 
 (* submit fails fast whatever happened before: whichever objects already "have a
-   job", a required value missing anywhere below the submitted task makes submit
-   raise, and NO state the submit goes through has anything more registered      *)
+   job" or are sealed (a loaded configuration, a task instantiated before being
+   submitted), a required value missing anywhere below the submitted task makes submit
+   raise, and NO state the submit goes through has anything more registered        *)
 Theorem session_missing_rejected : forall rb cl s root init n m,
   nth_error (s_heap s) root = Some n ->
   let h' := upd_nth (s_heap s) root (set_init n init) in
@@ -1299,13 +1370,25 @@ Qed.
 Theorem rejected_changes_nothing : forall cl s o s',
   sess_step cl s o = (s', Rejected) -> s' = s.
 Proof.
-  intros cl s o s' H. unfold sess_step in H. destruct o as [root init|root|m k v]; simpl in H.
+  intros cl s o s' H. unfold sess_step in H. destruct o as [root init|root|m k v|root]; simpl in H.
   - destruct (submit_trace true cl s root init) as [tr v] eqn:E. inversion H; subst. clear H.
     destruct (submit_trace_cases _ _ _ _ _ _ _ E) as [[-> _]|[n [_ [_ C]]]]; [reflexivity|].
     simpl in C. destruct C as [[vis [_ [_ C]]]|[[vis [_ [-> _]]]|[_ [_ C]]]]; try discriminate. reflexivity.
   - inversion H; reflexivity.
   - destruct (nth_error (s_heap s) m) as [n|]; [|inversion H; reflexivity].
     destruct (cfg_set cl n k (stamp (s_jobs s) v)) as [n' o]. destruct o; inversion H; reflexivity.
+  - destruct (cfg_validate cl (s_heap s) root) as [[vis|vis]|]; inversion H; reflexivity.
+Qed.
+
+(* instantiating validates: a configuration with a required value missing below it
+   cannot be instantiated (and nothing is sealed)                                  *)
+Theorem instance_missing_rejected : forall rb cl s root m,
+  reach objs cl (s_heap s) root m -> lacks_required cl (s_heap s) m ->
+  sess_step_gen rb cl s (OInstance root) = (s, Rejected).
+Proof.
+  intros rb cl s root m Hr Hl. simpl.
+  pose proof (missing_rejected cl (s_heap s) [] root m Hr Hl) as Hm. unfold submit in Hm.
+  destruct (cfg_validate cl (s_heap s) root) as [[vis|vis]|]; try discriminate. reflexivity.
 Qed.
 
 (* the scenario, on the code as it is: t1 = TK() lacks its required value, t1.submit()
@@ -1313,8 +1396,8 @@ Qed.
    never registered is taken for a submitted one); t1 completed cannot be submitted again *)
 Definition ex_cl_pipe : classes :=
   [ {| c_parents := []; c_task := true;
-       c_args := [ {| a_ty := TInt; a_required := true; a_generated := false; a_constant := false |};
-                   {| a_ty := TObj 0; a_required := false; a_generated := false; a_constant := false |} ] |} ].
+       c_args := [ {| a_ty := TInt; a_required := true; a_generated := false; a_constant := false; a_optional := false; a_checker := None |};
+                   {| a_ty := TObj 0; a_required := false; a_generated := false; a_constant := false; a_optional := true; a_checker := None |} ] |} ].
 Definition ex_sess_pipe : session :=
   {| s_heap := [ mk 0 [(0%nat, VInt 1); (1%nat, VNone)]; mk 0 [(1%nat, VNone)] ];
      s_jobs := []; s_reg := [] |}.
@@ -1367,10 +1450,10 @@ Qed.
    declaration                                                                       *)
 Definition ex_cl_def : classes :=
   [ {| c_parents := []; c_task := false;
-       c_args := [ {| a_ty := TFloat; a_required := false; a_generated := false; a_constant := false |};
-                   {| a_ty := TList TFloat; a_required := false; a_generated := false; a_constant := false |};
-                   {| a_ty := TPath; a_required := false; a_generated := false; a_constant := false |};
-                   {| a_ty := TInt; a_required := true; a_generated := false; a_constant := false |} ] |} ].
+       c_args := [ {| a_ty := TFloat; a_required := false; a_generated := false; a_constant := false; a_optional := true; a_checker := None |};
+                   {| a_ty := TList TFloat; a_required := false; a_generated := false; a_constant := false; a_optional := true; a_checker := None |};
+                   {| a_ty := TPath; a_required := false; a_generated := false; a_constant := false; a_optional := true; a_checker := None |};
+                   {| a_ty := TInt; a_required := true; a_generated := false; a_constant := false; a_optional := false; a_checker := None |} ] |} ].
 Definition ex_defs : list (option value) :=
   [ Some (VInt 1); Some (VList [VInt 1; VInt 2]); Some (VStr "data"); None ].
 
@@ -1390,7 +1473,7 @@ Proof. eexists. vm_compute. repeat split. Qed.
 Example default_refused_ex :
   declare_default ex_cl_def (AList AInt) (Some (VList [VStr "a"])) = None /\
   declare_default ex_cl_def (AList AInt) (Some (VList [VFloat (FInt 2)])) =
-    Some {| a_ty := TList TInt; a_required := false; a_generated := false; a_constant := false |}.
+    Some {| a_ty := TList TInt; a_required := false; a_generated := false; a_constant := false; a_optional := false; a_checker := None |}.
 Proof. vm_compute. split; reflexivity. Qed.
 
 Example new_default_coerced_ex : coerced ex_cl_def (TList TFloat) (VList [VInt 1; VInt 2]) (VList [VFloat (FInt 1); VFloat (FInt 2)]).
@@ -1399,3 +1482,56 @@ Proof.
   apply Forall2_cons; [right; eexists; split; reflexivity|].
   apply Forall2_cons; [right; eexists; split; reflexivity|]. apply Forall2_nil.
 Qed.
+
+(* ---- round 6: checkers, None for a parameter that is not Optional, sealed configurations *)
+Definition ex_choices : argdecl :=
+  {| a_ty := TInt; a_required := true; a_generated := false; a_constant := false; a_optional := false;
+     a_checker := Some (CChoices [VInt 1; VInt 2; VInt 3]) |}.
+Definition ex_path_choices : argdecl :=
+  {| a_ty := TPath; a_required := false; a_generated := false; a_constant := false; a_optional := false;
+     a_checker := Some (CChoices [VPath "cpu"; VPath "gpu"]) |}.
+
+(* Annotated[int, Choices([1, 2, 3])] given 2.0 stores the int 2; 7 and 2.5 are refused;
+   Annotated[Path, Choices([Path("cpu"), Path("gpu")])] given "gpu" stores the Path      *)
+Example checker_ex :
+  arg_validate [] ex_choices (VFloat (FInt 2)) = Ok (VInt 2) /\
+  arg_validate [] ex_choices (VInt 7) = Err /\ arg_validate [] ex_choices (VFloat (FFrac 5)) = Err /\
+  arg_validate [] ex_path_choices (VStr "gpu") = Ok (VPath "gpu") /\
+  arg_validate [] ex_path_choices (VStr "tpu") = Err /\
+  assign [] ex_path_choices false false VNone = Err /\       (* a default does not make None a value *)
+  assign [] ex_path_choices false true VNone = Ok VNone /\   (* the library's own set(bypass=True) *)
+  assign_prefix [] ex_path_choices false false VNone = Ok VNone.
+Proof. repeat split. Qed.
+
+(* the code before fixes/C15-7: x: Param[int] = 3 (not Optional) assigned None holds None *)
+Theorem none_for_defaulted_refuted : exists cl d v',
+  a_optional d = false /\ assign_prefix cl d false false VNone = Ok v' /\ ~ has_type cl v' (a_ty d).
+Proof.
+  exists [], {| a_ty := TInt; a_required := false; a_generated := false; a_constant := false;
+                a_optional := false; a_checker := None |}, VNone.
+  split; [reflexivity|]. split; [reflexivity|]. apply has_type_not_none.
+Qed.
+
+(* sealed configurations are walked like the others.
+   (a) a LOADED configuration (load_objects seals without validating) that lacks a required
+       value, held in a list by the submitted task: rejected;
+   (b) a task instantiated (hence sealed) before submit(init_tasks=[incomplete]): rejected   *)
+Definition ex_heap_loaded : heap :=
+  [ mk 2 [(0%nat, VObj 1 1 false)];
+    {| n_cls := 1; n_fields := [(0%nat, VList [VObj 2 0 false])]; n_pre := []; n_init := []; n_sealed := true |};
+    {| n_cls := 0; n_fields := [(0%nat, VInt 1)]; n_pre := []; n_init := []; n_sealed := true |} ].
+Example loaded_incomplete_rejected :
+  sess_step ex_classes {| s_heap := ex_heap_loaded; s_jobs := []; s_reg := [] |} (OSubmit 0 [])
+  = ({| s_heap := ex_heap_loaded; s_jobs := []; s_reg := [] |}, Rejected).
+Proof. vm_compute. reflexivity. Qed.
+
+Example presealed_task_incomplete_init_rejected :
+  let s0 := {| s_heap := [ mk 3 [(0%nat, VObj 1 0 false)]; mk 0 [(0%nat, VInt 1); (1%nat, VInt 2)]; mk 0 [(0%nat, VInt 1)] ];
+               s_jobs := []; s_reg := [] |} in
+  let s1 := fst (sess_step ex_classes s0 (OInstance 0)) in
+  snd (sess_step ex_classes s0 (OInstance 0)) = Accepted /\
+  map n_sealed (s_heap s1) = [true; true; false] /\
+  sess_step ex_classes s1 (OSubmit 0 [2%nat]) = (s1, Rejected) /\
+  snd (sess_step ex_classes s1 (OSet 1 0 (VInt 5))) = Rejected /\     (* sealed: read-only *)
+  snd (sess_step ex_classes s1 (OSubmit 0 [])) = Accepted.
+Proof. vm_compute. repeat split. Qed.
